@@ -91,3 +91,11 @@ Definition basic_mismatches (cs : list (nat * bytes * bytes * bytes * bytes)) : 
 
 (* byte strings are written by the harness as lists of small nat literals *)
 Definition bs (l : list nat) : bytes := map N.of_nat l.
+
+(* ---- request decoder: payload fields whose prefix is stripped, read from encode_decode.go ---- *)
+Definition cattr_eq_dec (a b : cattr) : {a = b} + {a <> b}.
+Proof. decide equality; apply string_dec. Defined.
+
+Definition strip_mismatches (cs : list (nat * locs * list requirement * list cattr)) : list nat :=
+  flat_map (fun c => match c with (i, L, reqs, fields) =>
+     if list_eq_dec cattr_eq_dec (strip_fields L reqs) fields then [] else [i] end) cs.
